@@ -126,6 +126,7 @@ Color = Union[
     float,  # Greyscale
     Tuple[float, float, float],  # R, G, B
     Tuple[float, float, float, float],  # C, M, Y, K
+    Tuple[float, ...],  # n components (DeviceN, ICCBased)
 ]
 
 
@@ -966,9 +967,20 @@ class PDFPageInterpreter:
             else:
                 self.graphicstate.scolor = cmyk
 
+        elif isinstance(n, int) and n > 0:
+            # any other number of components (DeviceN, ICCBased with /N 2, ...)
+            values = self.pop(n)
+            floats = [safe_float(value) for value in values]
+            if len(values) != n or None in floats:
+                log.warning(
+                    f"Cannot set stroke color because not all values in {values!r} can be parsed as {n} floats"
+                )
+            else:
+                self.graphicstate.scolor = cast(Color, tuple(floats))
+
         else:
             log.warning(
-                f"Cannot set stroke color because {n} components are specified but only 1 (grayscale), 3 (rgb) and 4 (cmyk) are supported"
+                f"Cannot set stroke color because the color space has {n!r} components"
             )
 
     def do_scn(self) -> None:
@@ -1013,9 +1025,20 @@ class PDFPageInterpreter:
             else:
                 self.graphicstate.ncolor = cmyk
 
+        elif isinstance(n, int) and n > 0:
+            # any other number of components (DeviceN, ICCBased with /N 2, ...)
+            values = self.pop(n)
+            floats = [safe_float(value) for value in values]
+            if len(values) != n or None in floats:
+                log.warning(
+                    f"Cannot set non-stroke color because not all values in {values!r} can be parsed as {n} floats"
+                )
+            else:
+                self.graphicstate.ncolor = cast(Color, tuple(floats))
+
         else:
             log.warning(
-                f"Cannot set non-stroke color because {n} components are specified but only 1 (grayscale), 3 (rgb) and 4 (cmyk) are supported"
+                f"Cannot set non-stroke color because the color space has {n!r} components"
             )
 
     def do_SC(self) -> None:
